@@ -381,7 +381,11 @@ def run(ctx):
              'palette and accept indices that have no colour)' % whyv, None, key='asefile::palette::ColorPalette::validate_indexed_pixels|V|scan')
     layout.tile_words(ctx, 'T')
     # ---------- shared skeleton clauses
+    import iorules as _io
+    _io.take_bytes_length_check(ctx, 'V')       # the inflater may deliver the whole expected size (seed C06-j capped it at 1 MiB + 1)
     render.layer_image_unconditional(ctx, rule='N')
+    # Cel::image is the shared routine's image for (file, cel id), handed on untouched: no fast path of its own (seed C06-i)
+    render.image_delegation(ctx, rule='N', only=('asefile::cel::Cel::image',))
     render.opacity_and_mode(ctx)
     render.operands_and_offset(ctx)
     render.no_extra_skips(ctx, rule='K8')
